@@ -1061,6 +1061,9 @@ for b in ['B37','B38','B39','B40']:
     for i in range(1,7):
         if (b,i)==('B40',1): continue
         wbenign(b,'p%d.diff'%i)
+for b in ['B41','B42']:
+    for i in range(1,7):
+        wbenign(b,'p%d.diff'%i)
 # the C19g helper keyed by the whole (port, channel) element: property holds (duplicates are covered)
 w('C19', 'PROPERTY-HOLDING: perm channels de-duplicated by the whole (port, channel) element', '',
   ('x/ophost/types/hook/bridge_hook.go', '\tsdkCtx := sdk.UnwrapSDKContext(ctx)\n\tfor _, permChannel := range metadata.PermChannels {\n\t\tportID, channelID := permChannel.PortID, permChannel.ChannelID\n\n\t\t// register challenger as channel admin',
